@@ -40,3 +40,16 @@ Proof. vm_compute. split; reflexivity. Qed.
 Print Assumptions C19_reserve_covers.
 Print Assumptions C19_reserve_refuses.
 Print Assumptions C19_with_capacity.
+
+(* ---- tie to the source text: the functions below are parsed from /repo/src on every run
+   (tools/rs2v.py -> LeafActual.v) and evaluated by RustSem.eval ---- *)
+From BV Require Import RustSem ConstsActual LeafActual LeafActualOk.
+From Coq Require Import String.
+Open Scope string_scope.
+Open Scope N_scope.
+
+Theorem C19_source_amortized : forall cap used extra, cap * 2 < W ->
+  call_fn src_fns [("self", VRec [("cap", VN cap)])] "amortized_new_size" [VN used; VN extra]
+  = Ret (vopt (match checked_add used extra with Some r => Some (N.max (cap * 2) r) | None => None end)).
+Proof. exact src_amortized_new_size_ok. Qed.
+Print Assumptions C19_source_amortized.
